@@ -30,10 +30,10 @@ var guardTable = map[string]string{
 	"reservoir/cache.EntryMetadata.LastAccess":    "guard:S",
 	"reservoir/cache.EntryMetadata.Expires":       "guard:S",
 	"reservoir/utils/syncmap.SyncMap.ma":          "guard:F:reservoir/utils/syncmap.SyncMap.mu",
-	"reservoir/cache.cacheJanitor.interval":       "confined:(*reservoir/cache.cacheJanitor).start,(*reservoir/cache.cacheJanitor).start$1", // set before the goroutine starts, afterwards only its loop touches it
-	"reservoir/cache.cacheJanitor.running":        "confined:(*reservoir/cache.cacheJanitor).start,(*reservoir/cache.cacheJanitor).stop",     // lifecycle flag, owner-serial (constructor / Destroy)
+	"reservoir/cache.cacheJanitor.interval":       "confined:(*reservoir/cache.cacheJanitor).start,(*reservoir/cache.cacheJanitor).start$1",                // set before the goroutine starts, afterwards only its loop touches it
+	"reservoir/cache.cacheJanitor.running":        "confined:(*reservoir/cache.cacheJanitor).start,(*reservoir/cache.cacheJanitor).stop",                   // lifecycle flag, owner-serial (constructor / Destroy)
 	"reservoir/config.ConfigSubscriber.unsubs":    "confined:(*reservoir/config.ConfigSubscriber).Add,(*reservoir/config.ConfigSubscriber).UnsubscribeAll", // owner-confined: Add in constructors, UnsubscribeAll in Destroy/stop
-	"reservoir/config.ConfigProp.requiresRestart": "confined:(*reservoir/config.ConfigProp).SetRequiresRestart,(*reservoir/config.ConfigProp).Stage", // written while the Config is being built (NewDefault/load), read-only afterwards
+	"reservoir/config.ConfigProp.requiresRestart": "confined:(*reservoir/config.ConfigProp).SetRequiresRestart,(*reservoir/config.ConfigProp).Stage",       // written while the Config is being built (NewDefault/load), read-only afterwards
 	"reservoir/utils/event.Event.subscribers":     "guard:F:reservoir/utils/event.Event.mu",
 	"reservoir/utils/event.Event.nextID":          "guard:F:reservoir/utils/event.Event.mu",
 }
